@@ -468,6 +468,12 @@ func (g *gctx) lambda(nEl int) *Node {
 	}
 	if len(g.defs) > 0 && g.chance(30, "lamUser") {
 		if c := g.userCall(0, true); c != nil {
+			if nEl == 2 {
+				// a body may read an argument several times: fed with the memo
+				// of @reduce the text would grow geometrically with the array
+				// (3 reads x 20 elements = gigabytes, honestly allocated)
+				limitMemo(c, 0)
+			}
 			l.A = []*Node{c}
 			l.Bare = g.chance(20, "lamBare")
 			return l
@@ -485,6 +491,9 @@ func (g *gctx) lambda(nEl int) *Node {
 	if !used && len(c.A) > 0 && !f.arg(0, len(c.A)).isConst() {
 		c.A[0] = elem(0)
 	}
+	if nEl == 2 {
+		limitMemo(c, 1)
+	}
 	l.A = []*Node{c}
 	if g.chance(25, "lamText") {
 		l.A = append([]*Node{lit("<")}, l.A...)
@@ -493,6 +502,20 @@ func (g *gctx) lambda(nEl int) *Node {
 		l.Bare = g.chance(20, "lamBare")
 	}
 	return l
+}
+
+// limitMemo keeps at most max references to the memo {0} of a @reduce
+// sub-expression; the others read the current element {1} instead.
+func limitMemo(c *Node, max int) {
+	seen := 0
+	walk([]*Node{c}, func(n *Node) {
+		if n.K == kElem && n.I == 0 {
+			seen++
+			if seen > max {
+				n.I = 1
+			}
+		}
+	})
 }
 
 // userCall: a call of one of the available user functions.
@@ -657,7 +680,7 @@ func (g *gctx) topLit(allowBlank bool) *Node {
 	words := []string{"a", "x=", "-", "pre", ":", "0", "é", "v1.", "|"}
 	s := g.pick(words, "topLit")
 	if allowBlank && g.chance(40, "topBlank") {
-		s = g.pick([]string{"total: ", " - ", "a b", " ", "is "}, "topLitBlank")
+		s = g.pick([]string{"total: ", " - ", "a b", " ", "is ", "two  blanks", "tab\there"}, "topLitBlank")
 	}
 	return lit(s)
 }
@@ -737,7 +760,7 @@ func (g *gctx) defName(taken map[string]bool) string {
 		var sb strings.Builder
 		sb.WriteString(g.pick([]string{"f", "g", "my", "u", "dbl", "cls"}, "nameHead"))
 		for i := 0; i < n-1; i++ {
-			sb.WriteString(g.pick([]string{"a", "b", "x", "1", "2", "_", "-", "q"}, "nameCh"))
+			sb.WriteString(g.pick([]string{"a", "b", "x", "1", "2", "_", "-", "q", "A", "Z", ".", "é"}, "nameCh"))
 		}
 		s := strings.TrimRight(sb.String(), "-")
 		if !taken[s] && !builtinNames[s] {
